@@ -32,6 +32,10 @@ fn main() {
                 println!("{} {} {}", p.id, p.level, p.engine);
             }
         }
+        "list-json" => {
+            let v: Vec<serde_json::Value> = props::ALL.iter().map(|p| serde_json::json!({"id": p.id, "level": p.level, "engine": p.engine, "rule": p.rule, "assumptions": p.assumptions})).collect();
+            println!("{}", serde_json::Value::Array(v));
+        }
         "run" => {
             if a.len() < 4 {
                 usage();
